@@ -319,7 +319,8 @@ class OverwriteableFileConsumer(PrefixingLogMixin):
         self.current_size = download_size
         self.f = tempfile_maker()
         self.downloaded = 0
-        self.milestones = []  # empty heap of (offset, d)
+        self.milestones = []  # empty heap of (offset, seq, d); seq keeps entries with equal offsets comparable
+        self.milestone_seq = 0
         self.overwrites = []  # empty heap of (start, end)
         self.is_closed = False
 
@@ -422,7 +423,7 @@ class OverwriteableFileConsumer(PrefixingLogMixin):
                 milestone = end
 
         while len(self.milestones) > 0:
-            (next_, d) = self.milestones[0]
+            (next_, _seq, d) = self.milestones[0]
             if next_ > milestone:
                 return
             if noisy: self.log("MILESTONE %r %r" % (next_, d), level=NOISY)
@@ -512,7 +513,8 @@ class OverwriteableFileConsumer(PrefixingLogMixin):
             return defer.succeed("already reached successfully")
         d = defer.Deferred()
         d.addCallback(_reached)
-        heapq.heappush(self.milestones, (index, d))
+        self.milestone_seq += 1
+        heapq.heappush(self.milestones, (index, self.milestone_seq, d))
         return d
 
     def when_done(self):
@@ -538,7 +540,7 @@ class OverwriteableFileConsumer(PrefixingLogMixin):
         eventually_callback(self.done)(None)
 
         while len(self.milestones) > 0:
-            (next_, d) = self.milestones[0]
+            (next_, _seq, d) = self.milestones[0]
             if noisy: self.log("MILESTONE FINISH %r %r %r" % (next_, d, res), level=NOISY)
             heapq.heappop(self.milestones)
             # The callback means that the milestone has been reached if
